@@ -13,33 +13,44 @@ static void __CPROVER_assume(int c) { if (!c) { fflush(stdout); fprintf(stderr, 
 
 /* ---------------- lock discipline (C03 b): with -DVF_DISCIPLINE every translated load/store/atomic access additionally asserts that an access to
    protected memory (objects registered with vf_protect, and heap blocks allocated while their lock was held) happens with that lock held */
-struct rt_prot { const void *base; const int *lock; };
+struct rt_prot { const void *base; const int *lock; unsigned long size; };
 struct rt_prot rt_prots[32]; int rt_nprot; int rt_discipline;
 #if defined(__CPROVER__) && defined(VF_DISCIPLINE)
 static void rt_access(const void *p) {
   int i;
   if (!rt_discipline) return;
   for (i = 0; i < rt_nprot; i++)
-    if (__CPROVER_same_object(p, rt_prots[i].base))
+    if (__CPROVER_same_object(p, rt_prots[i].base) && __CPROVER_POINTER_OFFSET(p) >= __CPROVER_POINTER_OFFSET(rt_prots[i].base) &&
+        (unsigned long)(__CPROVER_POINTER_OFFSET(p) - __CPROVER_POINTER_OFFSET(rt_prots[i].base)) < rt_prots[i].size)
       __CPROVER_assert(*rt_prots[i].lock == 1, "C03 lock discipline: state of a lock-protected component accessed without holding its mutex");
+}
+#define RT_ACC(p) rt_access((const void*)(p))
+#elif defined(VF_DISCIPLINE)
+/* native execution of the translation (counterexample confirmation): the same obligation by address range */
+static void rt_access(const void *p) {
+  int i;
+  if (!rt_discipline) return;
+  for (i = 0; i < rt_nprot; i++)
+    if ((const char*)p >= (const char*)rt_prots[i].base && (const char*)p < (const char*)rt_prots[i].base + rt_prots[i].size && *rt_prots[i].lock != 1)
+      __CPROVER_assert(0, "C03 lock discipline: state of a lock-protected component accessed without holding its mutex");
 }
 #define RT_ACC(p) rt_access((const void*)(p))
 #else
 #define RT_ACC(p) do { } while (0)
 #endif
-void vf_protect(void *obj, void *lock) { if (rt_nprot < 32) { rt_prots[rt_nprot].base = obj; rt_prots[rt_nprot].lock = (const int*)lock; rt_nprot++; } rt_discipline = 1; }
+void vf_protect(void *obj, unsigned long size, void *lock) { if (rt_nprot < 32) { rt_prots[rt_nprot].base = obj; rt_prots[rt_nprot].lock = (const int*)lock; rt_prots[rt_nprot].size = size; rt_nprot++; } rt_discipline = 1; }
 void vf_unprotect_all(void) { rt_nprot = 0; rt_discipline = 0; }
-static void rt_prot_note_alloc(void *p) {
+static void rt_prot_note_alloc(void *p, unsigned long size) {
   int i, n = rt_nprot;
   if (!rt_discipline) return;
   for (i = 0; i < n; i++)
-    if (*rt_prots[i].lock == 1 && rt_nprot < 32) { rt_prots[rt_nprot].base = p; rt_prots[rt_nprot].lock = rt_prots[i].lock; rt_nprot++; break; }
+    if (*rt_prots[i].lock == 1 && rt_nprot < 32) { rt_prots[rt_nprot].base = p; rt_prots[rt_nprot].lock = rt_prots[i].lock; rt_prots[rt_nprot].size = size; rt_nprot++; break; }
 }
 
 #ifdef __CPROVER__
 #define RT_CHK(p, n) do { __CPROVER_assert(__CPROVER_rw_ok((p), (n)), "memory: invalid/freed/out-of-bounds access"); __CPROVER_assume(__CPROVER_rw_ok((p), (n))); RT_ACC(p); } while (0)
 #else
-#define RT_CHK(p, n) do { } while (0)
+#define RT_CHK(p, n) do { RT_ACC(p); } while (0)
 #endif
 /* memmove between two different objects may copy in either direction: lets symex fold the direction test (pointers into distinct objects have no constant order) */
 #ifdef __CPROVER__
@@ -97,14 +108,14 @@ static void *rt_new(uint64_t n) {
   __CPROVER_assume(p != 0);
   rt_live_allocs++; rt_total_allocs++;
   if (rt_counting) rt_count_allocs++;
-  rt_prot_note_alloc(p);
+  rt_prot_note_alloc(p, n);
   return p;
 }
-static void rt_new_note(void *p) {
+static void rt_new_note(void *p, uint64_t size_) {
   __CPROVER_assume(p != 0);
   rt_live_allocs++; rt_total_allocs++;
   if (rt_counting) rt_count_allocs++;
-  rt_prot_note_alloc(p);
+  rt_prot_note_alloc(p, size_);
 }
 static void rt_delete(void *p) {
   if (p) { rt_live_allocs--; free(p); }
